@@ -242,7 +242,7 @@ def work(job):
             for v in vs:
                 viols.append({'seed': seed, 'profile': profile,
                               'signature': v.sig, 'detail': v.detail,
-                              'size': len(json.dumps(scn))})
+                              'size': len(json.dumps(scn)), 'cfg': cfg})
             if sample_every and seed % sample_every == 0:
                 H2 = execu.execute(H.get('_measured_scn', scn))
                 det[0] += 1
@@ -453,9 +453,10 @@ def main(argv=None):
     lines = []
     replays = []
     for s in sorted(unknown)[:int(os.environ.get('GPSIM_MAX_REPLAYS', 3))]:
-        path, err = write_replay(prop, spec, by_sig[s], dict(
-            next((c or {}) for p, _, c in spec['profiles']
-                 if p == by_sig[s]['profile']), **spec.get(tier + '_cfg', {})))
+        # (the generator configuration of the job that produced it: a
+        # profile may be registered twice with different configurations)
+        path, err = write_replay(prop, spec, by_sig[s],
+                                 by_sig[s].get('cfg') or {})
         if path is None:
             errors.append({'seed': by_sig[s]['seed'], 'trace': err})
             continue
